@@ -173,7 +173,7 @@ func runCheck(p *Prog, prop, tier string, timeout, workers int, verbose bool) in
 	}
 	tmp, _ := os.MkdirTemp("", "govc-"+prop)
 	defer os.RemoveAll(tmp)
-	dischargeAll(out.Obls, tmp, timeout, workers)
+	out.Obls = dischargeGroups(out.Obls, tmp, timeout, workers)
 
 	known := loadKnownFindings()
 	base := loadBaseline()
